@@ -108,6 +108,7 @@ type Interp struct {
 	ts       *threadSys
 	tags     []string
 	timerFires int
+	externalCtxs []*CtxObj
 	onFSEffect func(it *Interp, e FSEffect)
 	fsFaultsOff bool
 	cache    *SatCache
